@@ -110,6 +110,29 @@ def replay_file(path, want_log=False):
     return spec, doc, err, rc
 
 
+def replay_witnesses(prop, findings):
+    """Replay all witnesses of a property, one worker interpreter per distinct PYTHONHASHSEED."""
+    groups = {}
+    for f in findings:
+        spec = json.load(open(os.path.join(ROOT, f['witness'])))
+        groups.setdefault(spec.get('pyhashseed', 0), []).append((f['id'], spec['case']))
+    out = {}
+
+    def run(item):
+        hs, items = item
+        with tempfile.TemporaryDirectory(prefix='verif-wit-') as td:
+            fin = os.path.join(td, 'cases.json')
+            json.dump([c for _, c in items], open(fin, 'w'))
+            docs, err, rc = run_worker(['replaymany', prop, fin], hs, timeout=900)
+        return items, docs, err
+
+    with ThreadPoolExecutor(max_workers=workers()) as ex:
+        for items, docs, err in ex.map(run, sorted(groups.items())):
+            for i, (fid, _) in enumerate(items):
+                out[fid] = (docs[i] if docs is not None and i < len(docs) else None, err)
+    return out
+
+
 def minimise_case(prop, case, sig, pyhashseed):
     with tempfile.TemporaryDirectory(prefix='verif-min-') as td:
         fin = os.path.join(td, 'in.json')
@@ -135,9 +158,10 @@ def cmd_check(prop, tier):
 
     # ---- phase A: witnesses of known findings
     known_seen = {}
+    wdocs = replay_witnesses(prop, findings)
     for f in findings:
         wpath = os.path.join(ROOT, f['witness'])
-        spec, doc, err, rc = replay_file(wpath)
+        doc, err = wdocs.get(f['id'], (None, 'not replayed'))
         if doc is None or doc.get('harness_error'):
             harness_errors.append('witness %s: %s' % (f['witness'], (doc or {}).get('harness_error') or err))
             continue
